@@ -47,3 +47,18 @@ Definition run_task (showinc : bool) (depfile : option (bytes * option bytes)) (
                 end
               else Ok (snd filtered));
   Ok (mkTR (cr_term run) (fst filtered) deps, last_lines [] (cr_chunks run)).
+
+(* what the worker thread of task::Runner::start sends as the step's result: an error of run_task
+   (a malformed depfile) becomes a failed task whose output is the error text and a newline *)
+Definition worker_result (showinc : bool) (depfile : option (bytes * option bytes)) (run : cmd_run) : outcome task_result :=
+  match run_task showinc depfile run with
+  | Ok (r, _) => Ok r
+  | Err e => Ok (mkTR 1%N (e ++ [10%N]) None)
+  | Panic s => Panic s
+  | OutOfBounds s => OutOfBounds s
+  | OutOfFuel => OutOfFuel
+  end.
+
+(* the Output messages the worker sends before its result (none for a hide_progress step) *)
+Definition worker_outputs (hide_progress : bool) (run : cmd_run) : list bytes :=
+  if hide_progress then [] else last_lines [] (cr_chunks run).
